@@ -75,12 +75,12 @@ LEAF_CAP = {"quick": 48, "thorough": 256}
 
 def thresholds(tier):
   if tier == "quick":
-    return {"hp.scenarios": 12, "hp.leaves": 350, "hp.leaves_built": 300, "hp.scenarios_exhaustive": 8,
-            "hp.scenarios_sampled": 1, "hp.offered_checked": 2500, "hp.membership_checked": 1800,
-            "hp.honour_checked": 1500, "hp.excluded_checked": 600, "hp.group_checked": 120,
-            "hp.architecture_checked": 300, "hp.scaled_units_checked": 10, "hp.size_layers_checked": 1200,
-            "hp.build_checked": 8, "hp.score_checked": 8, "delta.points": 3000, "delta.monotone_pairs": 2500,
-            "stub.selftest": 1, "distinct_nontrivial": 3000}
+    return {"hp.scenarios": 20, "hp.leaves": 190, "hp.leaves_built": 180, "hp.scenarios_exhaustive": 12,
+            "hp.scenarios_sampled": 2, "hp.offered_checked": 3000, "hp.membership_checked": 1200,
+            "hp.honour_checked": 1200, "hp.excluded_checked": 800, "hp.group_checked": 80,
+            "hp.architecture_checked": 180, "hp.scaled_units_checked": 25, "hp.size_layers_checked": 800,
+            "hp.build_checked": 8, "hp.score_checked": 8, "delta.points": 1500, "delta.monotone_pairs": 1300,
+            "delta.model_zero_checked": 9, "stub.selftest": 1, "distinct_nontrivial": 1700}
   return {"hp.scenarios": 60, "hp.leaves": 3000, "hp.leaves_built": 2500, "hp.scenarios_exhaustive": 40,
           "hp.scenarios_sampled": 4, "hp.offered_checked": 20000, "hp.membership_checked": 15000,
           "hp.honour_checked": 12000, "hp.excluded_checked": 5000, "hp.group_checked": 800,
